@@ -1,5 +1,6 @@
 import CattrsModel.Paths.LemmasExact
 import CattrsModel.Paths.LemmasTE
+import CattrsModel.Paths.Views
 import CattrsModel.Lemmas.RoundTrip
 /-!
 # C05 — detailed validation reports exactly the faulty paths, one leaf error per fault
@@ -175,5 +176,100 @@ theorem C05_dependent_faults_witness :
       Field.key, dlookup, Obj.pyEq, Obj.num2?, extraKeys, fieldNames, initFields, keysOf, Obj.memPy, iterItems, Ty.isAny,
       Obj.toInt?, pyStr, Dflt.value?, List.filterMap_cons]
 end Examples
+
+/-! ## converter options that select other branches of the class template (round 3)
+
+`Paths/Views.lean`: `prefer_attrib_converters=True` (attrs attributes with `converter=` have no structure handler) and hooks
+that include `init=False` attributes are the same template seen through a view of the class table.  The check runs both
+options on the real converter against these views. -/
+
+/-- **Handler-less attributes.**  Whatever attributes lose their structure handler (`m`), for a table with distinct
+attribute names: a valid payload with independent applicable faults -- in particular *missing keys of required
+handler-less attributes*, which `app` admits like any other missing key -- yields one error tree of the right shape with
+exactly one leaf per fault at the fault's path. -/
+theorem C05_exact_paths_prefer_view (w : World) (hw : w.WF) (m : Nat → String → Bool) (cfg : Cfg) (T : Ty) (p0 : Obj)
+    (fs : List Fault) (hvalid : ∃ v, stD (preferView m w) cfg T p0 = .ok v)
+    (happ : app (preferView m w) cfg T p0 fs = true) (hne : fs ≠ []) :
+    ∃ e, stD (preferView m w) cfg T (inject p0 fs) = .error e ∧ shapeOK (preferView m w) T e = true ∧
+      leaves e = fs.length ∧ (paths e).Perm (fs.map Fault.reportPath) :=
+  exact_paths_of_names _ (fun c => by rw [preferView_names]; exact hw.namesNodup c) cfg T p0 fs hvalid happ hne
+
+/-- **Included `init=False` attributes**, for fault sets that the view admits (`app` on the view). -/
+theorem C05_exact_paths_incl_view (w : World) (hw : w.WF) (m : Nat → String → Bool) (cfg : Cfg) (T : Ty) (p0 : Obj)
+    (fs : List Fault) (hvalid : ∃ v, stD (inclView m w) cfg T p0 = .ok v)
+    (happ : app (inclView m w) cfg T p0 fs = true) (hne : fs ≠ []) :
+    ∃ e, stD (inclView m w) cfg T (inject p0 fs) = .error e ∧ shapeOK (inclView m w) T e = true ∧
+      leaves e = fs.length ∧ (paths e).Perm (fs.map Fault.reportPath) :=
+  exact_paths_of_names _ (fun c => by rw [inclView_names]; exact hw.namesNodup c) cfg T p0 fs hvalid happ hne
+
+/-- **The two reporting phases (negative witness, recorded finding).**  On the two-phase model of the real detailed
+template (`GenHook.hstClsD`), class `a: int; b: int = field(default=5, init=False)` with `b` included: a payload whose
+`a` and `b` are both invalid reports only `$.a` -- the block of `b` runs after instantiation and is never reached --
+while the same bad `b` alone is reported at `$.b`.  So "one leaf per fault" fails for fault sets that straddle the
+instantiation; the view (and the check's fault model) stays on one side. -/
+theorem C05_two_phase_witness :
+    GenHook.hstClsD twoPhaseSt 0 false twoPhaseCls (.dict [(.str "a", .str "q"), (.str "b", .str "q")])
+        = .error (.cve [(some "a", .leaf)])
+    ∧ GenHook.hstClsD twoPhaseSt 0 false twoPhaseCls (.dict [(.str "a", .int 1), (.str "b", .str "q")])
+        = .error (.cve [(some "b", .leaf)])
+    ∧ GenHook.hstClsD twoPhaseSt 0 false twoPhaseCls (.dict [(.str "a", .int 1), (.str "b", .int 2)])
+        = .ok (.inst 0 [("a", .int 1), ("b", .int 2)]) := by
+  refine ⟨?_, ?_, ?_⟩ <;> rfl
+
+section ViewExamples
+/-- `x` has an attrs converter (handler-less under `prefer_attrib_converters=True`), `y` is an ordinary attribute -/
+def c05vWorld : World :=
+  { classes := [ { kind := .attrs, frozen := false, fields :=
+      [ { name := "x", alias := "x", ty := some .int, dflt := .none, init := true, required := true },
+        { name := "y", alias := "y", ty := some .int, dflt := .none, init := true, required := true } ] } ],
+    enums := [] }
+def c05vMark : Nat → String → Bool := fun c n => c == 0 && n == "x"
+def c05vCfg : Cfg := { gen := true, tupleStrat := false, detailed := true, forbid := false }
+def c05vPayload : Obj := .dict [(.str "x", .int 1), (.str "y", .int 2)]
+def c05vFaults : List Fault := [.missingKey [] "x", .badLeaf [.attr "y"] (.str "q")]
+
+theorem c05vWorld_WF : c05vWorld.WF := by
+  constructor
+  · intro c f hf d hd
+    match c with
+    | 0 =>
+      simp [c05vWorld, World.fields] at hf
+      rcases hf with rfl | rfl <;> simp [Dflt.value?] at hd
+    | n + 1 => simp [c05vWorld, World.fields] at hf
+  · intro c
+    match c with
+    | 0 => simp [c05vWorld, World.fields]
+    | n + 1 => simp [c05vWorld, World.fields]
+
+theorem c05v_fields : (preferView c05vMark c05vWorld).fields 0 =
+    [ { name := "x", alias := "x", ty := Option.none, dflt := .none, init := true, required := true },
+      { name := "y", alias := "y", ty := some .int, dflt := .none, init := true, required := true } ] := by
+  rw [preferView, mapFields_fields]
+  simp [c05vWorld, World.fields, c05vMark]
+
+set_option maxRecDepth 8000 in
+theorem c05v_valid : stD (preferView c05vMark c05vWorld) c05vCfg (.cls 0) c05vPayload
+    = .ok (.inst 0 [("x", .int 1), ("y", .int 2)]) := by
+  simp (config := {decide := true}) [stD, stDFields, c05v_fields, c05vCfg, c05vPayload,
+    Field.key, dlookup, Obj.pyEq, Obj.num2?, extraKeys, fieldNames, initFields, keysOf, Obj.memPy,
+    Obj.toInt?, pyStr, Dflt.value?]
+
+set_option maxRecDepth 8000 in
+theorem c05v_app : app (preferView c05vMark c05vWorld) c05vCfg (.cls 0) c05vPayload c05vFaults = true := by
+  simp (config := {decide := true}) [app, appFields, c05v_fields, c05vCfg, c05vPayload, c05vFaults,
+    Field.key, dlookup, Obj.pyEq, Obj.num2?, sub, rest, Fault.under, Fault.notUnder, Fault.path, Fault.withPath, Seg.matches,
+    soleBad, badHere, isMissingHere, dropMissing, headIsAttr, extraOK, fieldNames, initFields, isLeafErr, stD,
+    Obj.toInt?, parseInt?, keysOf, nodupPy, Obj.memPy, Dflt.value?, List.filterMap_cons, List.filter_cons]
+
+/-- non-vacuity of `C05_exact_paths_prefer_view`: the missing key of the handler-less required attribute `x` and the bad
+value of `y` are both reported, each at its own path -/
+example : ∃ e, stD (preferView c05vMark c05vWorld) c05vCfg (.cls 0) (inject c05vPayload c05vFaults) = .error e ∧
+    shapeOK (preferView c05vMark c05vWorld) (.cls 0) e = true ∧ leaves e = 2 ∧
+    (paths e).Perm (c05vFaults.map Fault.reportPath) :=
+  C05_exact_paths_prefer_view c05vWorld c05vWorld_WF c05vMark c05vCfg (.cls 0) c05vPayload c05vFaults
+    ⟨_, c05v_valid⟩ c05v_app (by simp [c05vFaults])
+
+example : c05vFaults.map (fun f => renderPath f.reportPath) = ["$.x", "$.y"] := by decide
+end ViewExamples
 
 end CattrsModel
